@@ -617,6 +617,12 @@ def concrete_eval(t, env):
     if k == 'un' and t[1] == '-':
         v = concrete_eval(t[2], env)
         return None if v is None else -v
+    if k == 'un' and t[1] in ('post--', 'post++', 'pre--', 'pre++'):
+        # the increment itself is an event of the path, already applied when the enclosing test is evaluated: a post-form reads the value before it
+        v = concrete_eval(t[2], env)
+        if v is None:
+            return None
+        return v + 1 if t[1] == 'post--' else (v - 1 if t[1] == 'post++' else v)
     if k == 'var':
         return env.get(t[2].rsplit('::', 1)[-1])
     if k == 'field':
@@ -677,3 +683,79 @@ def reaches_under(view, start, target, env, stop=()):
                 continue
         work.extend(x for x in ss if x is not None)
     return False
+
+
+# ---- helper extraction: effects of a private helper belong to the entry points that call it -------------------------------------------------------
+def class_call_closure(prog, analyzer, prefix):
+    """{function q: set of q of the functions of `prefix` (a class or namespace) it calls directly}"""
+    out = {}
+    for f in prog.fns.values():
+        if not f.get('blocks') or not f['q'].startswith(prefix):
+            continue
+        v = analyzer.view(f)
+        cs = set()
+        for eid in range(len(f['elems'])):
+            for e in v.events_of(eid):
+                if e.kind == 'call' and e.q.startswith(prefix) and e.q != f['q']:
+                    cs.add(e.q)
+        out.setdefault(f['q'], set()).update(cs)
+    return out
+
+
+def effective_allowed(allowed, calls):
+    """an operation table keyed by entry point, closed under the calls between functions of the class: an entry point may also do what the table
+    functions it (transitively) calls may do; owners(f) of a helper that is not in the table = the table functions that (transitively) call it"""
+    def callees(f, seen=None):
+        seen = set() if seen is None else seen
+        for g in calls.get(f, ()):
+            if g not in seen:
+                seen.add(g)
+                callees(g, seen)
+        return seen
+    eff = {}
+    for f in allowed:
+        eff[f] = set(allowed[f])
+        for g in callees(f):
+            if g in allowed:
+                eff[f] |= allowed[g]
+
+    def owners(fq):
+        if fq in allowed:
+            return {fq}
+        return set(f for f in allowed if fq in callees(f))
+    return eff, owners
+
+
+def path_is_feasible(evs, env=None):
+    """constant propagation along one (possibly inlined) path: scalar variables bound to literals (parameters bound by value at an 'enter' event,
+    assignments, ++/--) decide the branch atoms that only mention them; False iff some decided atom contradicts the polarity taken"""
+    env = dict(env or {})
+    for e in evs:
+        if e.kind == 'enter' and e.lhs:
+            for pv, a in zip(e.lhs, e.args or ()):
+                v = concrete_eval(a, env)
+                if v is not None:
+                    env[pv[2].rsplit('::', 1)[-1]] = v
+                else:
+                    env.pop(pv[2].rsplit('::', 1)[-1], None)
+        elif e.kind == 'assign' and e.lhs is not None and e.lhs[0] == 'var':
+            k = e.lhs[2].rsplit('::', 1)[-1]
+            v = concrete_eval(e.rhs, env) if e.op == '=' else None
+            if v is not None:
+                env[k] = v
+            else:
+                env.pop(k, None)
+        elif e.kind == 'incdec' and e.lhs is not None and e.lhs[0] == 'var':
+            k = e.lhs[2].rsplit('::', 1)[-1]
+            if k in env:
+                env[k] = env[k] + (1 if '++' in e.op else -1)
+        elif e.kind == 'call' and e.args:
+            for a in e.args:       # a scalar passed by address or reference may change
+                for t in ((a[2],) if a[0] == 'un' and a[1] == '&' else ()):
+                    if t[0] == 'var':
+                        env.pop(t[2].rsplit('::', 1)[-1], None)
+        elif e.kind == 'branch':
+            tv = concrete_atom(e.atom, env)
+            if tv is not None and tv != e.pol:
+                return False
+    return True
